@@ -399,6 +399,28 @@ func (w *vfWorld) forge(st vfStep) {
 		val = vfJWKEmbed(src.Value, true)
 	case how == "kidclaim":
 		val = vfJWKEmbed(src.Value, false)
+	case how == "sibling":
+		// what another server of the same deployment would mint: same keys, same configuration file (no
+		// host_identity in it), another host name - its tokens name *it* as issuer and audience, not this server
+		if !w.cfg.NoHostIdentity || !(src.Kind == "cookie" || src.Kind == "clitoken" || src.Kind == "storage") {
+			return
+		}
+		own := w.state.HostIdentity
+		w.state.HostIdentity = "keymaster-b.sim"
+		iss := w.state.idpGetIssuer()
+		w.state.HostIdentity = own
+		val = vfResignJWT(src.Value, "ca_rsa", func(m map[string]any) {
+			m["iss"] = iss
+			if _, ok := m["aud"].([]any); ok {
+				m["aud"] = []string{iss}
+			} else if _, ok := m["aud"].(string); ok {
+				m["aud"] = iss
+			} else {
+				m["aud"] = []string{iss}
+			}
+			m["jti"] = "sibling"
+		})
+		w.probe("sibling-server-token-forged")
 	case how == "none":
 		val = vfAlgNone(src.Value, nil)
 	case how == "hs256":
@@ -496,6 +518,8 @@ func (w *vfWorld) judgePresent(a *vfArtefact, consumer string, honoured, expect 
 			cls = "alg-accepted"
 		case strings.HasPrefix(a.Forged, "corrupt:"):
 			cls = "corrupted-accepted"
+		case a.Forged == "sibling":
+			cls = "other-server-token-accepted"
 		case strings.HasPrefix(a.Forged, "claim:"):
 			cls = "claim-ignored"
 		case a.Forged == "" && !time.Now().Before(a.Exp) && vfKindFits(a.Kind, consumer):
@@ -775,6 +799,9 @@ func genTokenPlan(r *rand.Rand, tier, focus string) *vfPlan {
 	p := &vfPlan{Cfg: vfCfg{TOTP: true, VIP: true, PwBackend: "counting", CliTokenLife: pick(r, []string{"1h", "30m", "24h"}),
 		CertBackends: []string{"U2F", "TOTP", "password"}, WebUIBackends: pick(r, [][]string{{"password"}, {"password", "U2F"}, {"U2F", "TOTP", "password"}}),
 		Ed25519CA: chance(r, 0.3), GroupsLDAP: chance(r, 0.3)}}
+	if focus == "C04" {
+		p.Cfg.NoHostIdentity = chance(r, 0.2) // a deployment whose servers share one configuration file and are told apart by their host names
+	}
 	add := func(s vfStep) { p.Steps = append(p.Steps, s) }
 	users := []string{"alice", "bob", "mallory"}
 	for i, s := range []string{"s1", "s2", "s3"} {
@@ -802,6 +829,9 @@ func genTokenPlan(r *rand.Rand, tier, focus string) *vfPlan {
 	consumers := []string{"session", "sessionpost", "certgen", "token", "userinfo", "cliverify", "clisend", "storage", "tokenother", "clisendother", "storageother", "certgencert"}
 	forgeries := []string{"foreignkey", "jwkembed", "kidclaim", "none", "hs256", "hs256pem", "corrupt:header", "corrupt:payload", "corrupt:signature",
 		"claim:iss", "claim:aud", "claim:nbf", "claim:exp", "fclaim:sub", "fclaim:level", "fclaim:exp"}
+	if p.Cfg.NoHostIdentity {
+		forgeries = append(forgeries, "sibling", "sibling", "sibling")
+	}
 	n := 10 + r.IntN(16)
 	if tier == "thorough" {
 		n = 14 + r.IntN(30)
